@@ -1,7 +1,7 @@
 (* C06 — Encoding is well-formed, collision-free and deterministic. *)
 From Coq Require Import List String Bool ZArith Permutation Sorted.
 Local Open Scope Z_scope.
-From Spec Require Import Base.Json Codec.Types Codec.Gen_Tables Codec.Codec Codec.CodecFacts.
+From Spec Require Import Base.Json Codec.Types Codec.Gen_Tables Codec.Codec Codec.CodecFacts Codec.PayloadFacts.
 Import ListNotations.
 Local Open Scope string_scope.
 
@@ -42,3 +42,18 @@ Example C06_example :
                         ("a", JObj [("x-order", JNum 15 (-1))]); ("c", JObj [("x-order", JStr "1")]); ("z", JObj [("x-order", JNum 0 0)])])
   = ["z"; "a"; "b"; "c"; "d"; "e"].
 Proof. vm_compute. reflexivity. Qed.
+
+(* ---------- free-form payloads, for every JSON value (Codec/PayloadFacts.v) ---------- *)
+(* whatever JSON value stands at a free-form position (default, example, enum entries, extension values, unknown keywords),
+   duplicates included, what the codec emits for it has, at every level of nesting, member names in strictly increasing
+   order - hence no two members with one name - and it is a function of the value alone (a structural recursion) *)
+Theorem C06_emitted_payloads_are_sorted_at_every_level : forall j, payload_nf (norm_any j).
+Proof. exact norm_any_is_nf. Qed.
+Print Assumptions C06_emitted_payloads_are_sorted_at_every_level.
+Theorem C06_emitted_payloads_have_no_duplicate_names : forall j, nodup_names (norm_any j).
+Proof. intros j. apply payload_nf_nodup. apply norm_any_is_nf. Qed.
+Print Assumptions C06_emitted_payloads_have_no_duplicate_names.
+(* every map is emitted sorted, whatever it holds (the NoDup premise of C06_map_sorted is not needed for sortedness) *)
+Theorem C06_maps_are_emitted_sorted : forall l, StronglySorted mlt (sort_members l).
+Proof. exact sort_members_is_sorted. Qed.
+Print Assumptions C06_maps_are_emitted_sorted.
